@@ -561,7 +561,8 @@ fn push_loop(n: usize, unit: &[char], kind: usize) -> Result<(usize, u64, u64), 
 }
 
 /// The decoders append as they go: a text that outgrows the buffer they started with still costs O(log n) requests.
-/// kind 0: from_utf8_lossy(n valid bytes + k x 0xFF), 1: from_utf16 / 2: from_utf16_lossy of n ASCII + k three-byte units
+/// kind 0: from_utf8_lossy(n valid bytes + k x 0xFF), 1: from_utf16 / 2: from_utf16_lossy of n ASCII + k three-byte units,
+/// 3 / 4: the same two over k surrogate pairs + n three-byte units
 pub fn c12_decoder_case(kind: usize, n: usize, k: usize) -> Option<Violation> {
     use crate::shadow;
     shadow::with(|h| {
@@ -575,11 +576,21 @@ pub fn c12_decoder_case(kind: usize, n: usize, k: usize) -> Option<Violation> {
             let s = lean_string::LeanString::from_utf8_lossy(&b);
             (s.len(), s.len() == n + 3 * k)
         }
-        _ => {
+        1 | 2 => {
             let mut u = vec![0x61u16; n];
             u.extend(std::iter::repeat_n(0x20acu16, k));
             let s = if kind == 1 { lean_string::LeanString::from_utf16(&u).unwrap_or_default() } else { lean_string::LeanString::from_utf16_lossy(&u) };
             (s.len(), s.len() == n + 3 * k)
+        }
+        _ => {
+            // k surrogate pairs first (2 units -> 4 bytes), then n three-byte units: the text outgrows `units` bytes late
+            let mut u: Vec<u16> = Vec::new();
+            for _ in 0..k {
+                u.extend([0xd83du16, 0xde00]);
+            }
+            u.extend(std::iter::repeat_n(0x20acu16, n));
+            let s = if kind == 3 { lean_string::LeanString::from_utf16(&u).unwrap_or_default() } else { lean_string::LeanString::from_utf16_lossy(&u) };
+            (s.len(), s.len() == 4 * k + 3 * n)
         }
     };
     let (req, viol, live, sizes) = shadow::with(|h| {
@@ -591,6 +602,18 @@ pub fn c12_decoder_case(kind: usize, n: usize, k: usize) -> Option<Violation> {
     let case = serde_json::json!({"kind": "decoder_growth", "decoder": kind, "n": n, "k": k});
     // each buffer the decoder moves to is needed because the previous one (of s bytes, header included) was full to
     // within 3 bytes: "at least the old length plus half of it" implies more than 1.5 x (s - 32) for the next one
+    // ... and "no larger than the greater of that and the size actually required": the append that did not fit was
+    // one character (at most 4 bytes) on top of at most s - 16 bytes of text
+    for w in sizes.windows(2) {
+        if w[1] > w[0] && w[1] > (w[0] + w[0] / 2).max(w[0] + 4) + 32 {
+            return Some(Violation {
+                case,
+                clause: "C12.upper".into(),
+                step: 0,
+                detail: format!("decoder {kind} ({n} + {k} units): a full buffer of {} bytes was replaced by one of {} bytes, more than 1.5x and more than one character needs (all buffer sizes: {sizes:?})", w[0], w[1]),
+            });
+        }
+    }
     for w in sizes.windows(2) {
         if w[1] > w[0] && 2 * w[1] < 3 * w[0].saturating_sub(32) {
             return Some(Violation {
@@ -735,7 +758,7 @@ pub fn c12(tier: Tier, seed: u64) -> Verdict {
     }
     if merged.violation.is_none() {
         let mut m = Merged::new();
-        'd: for kind in 0..3usize {
+        'd: for kind in 0..5usize {
             for n in [0usize, 20, 100, 1000, 65_536] {
                 for k in [10usize, 200, 5000] {
                     m.evaluations += 1;
